@@ -318,6 +318,9 @@ def routines(ids):
         "Repo._put_named_file": with_repo(lambda r: r._put_named_file("description", b"a description\n" * 20)),
         "object_store.add_alternate_path": with_repo(lambda r: r.object_store.add_alternate_path("/nonexistent/objects")),
         "object_store.write_commit_graph": with_repo(lambda r: r.object_store.write_commit_graph([ids[2]])),
+        "Repo.update_shallow": with_repo(lambda r: r.update_shallow({ids[1]}, None)),
+        "object_store.write_midx": with_repo(lambda r: (r.object_store.pack_loose_objects(), r.object_store.write_midx())),
+        "Pack.keep": with_repo(lambda r: (r.object_store.pack_loose_objects(), [p.keep(b"kept by test") for p in r.object_store.packs])),
         "refs.__setitem__": with_repo(lambda r: r.refs.__setitem__(b"refs/heads/master", ids[0])),
         "refs.__delitem__": with_repo(lambda r: r.refs.__delitem__(b"refs/heads/loose")),
     }
